@@ -23,7 +23,7 @@ props = {}
 
 # ---------------- C01 / C08: parser ----------------
 parser_quick = [J("parser","VH_holes",1), J("parser","VH_holes",2), J("parser","VH_free",1), J("parser","VH_free",2)] + \
-               [J("parser","VH_template",w) for w in (0,2,3,4,5,6,7,8,9,10,11,12,13)] + [J("parser","VH_reserved")]
+               [J("parser","VH_template",w) for w in (0,2,3,4,5,6,7,8,9,10,11,12,13,14,15,16,17,18)] + [J("parser","VH_reserved")]
 parser_thorough = parser_quick + [J("parser","VH_free",3), J("parser","VH_template",1), J("parser","VH_holes",3, max_instrs=6000000)]
 props["C01"] = dict(title="Accepted programs get the syntax tree the documented grammar prescribes",
   bounds="real Parse() on: operand (hole operand)* ; with 1-2 (thorough 3) tokens of arbitrary type among all 50; 1-2 (thorough 3) fully arbitrary tokens; 14 statement/expression templates with 1-3 arbitrary tokens (prefix, suffix chains, parentheses, dangling else, assignment chains, declarations, functions, for headers, literals, unary/power). Longer programs only through the composition argument of DESIGN §4",
@@ -49,7 +49,7 @@ props["C02"] = dict(title="Operators compute the documented result for every com
 props["C03"] = dict(title="Names resolve through nested block scopes; shadowing and lifetime follow blocks",
   bounds="programs of 2 (thorough 3) top-level statements, nesting depth 1 (thorough 2), over declaration / assignment / read / block / for-header / function declaration / call, every name its own symbolic code point (all collision patterns), run through the real Interpret; recursion depth <= 2",
   assumptions=["oracle: scope model of DESIGN E.6 (dynamic resolution through the closure chain, as the property's domain restriction allows)", "values are distinct concrete numbers; reads are print statements"]+A_COMMON[:2],
-  quick=[J(I,"VH_scope",1,1, loop_fuel=300), J(I,"VH_scope",2,1, loop_fuel=300)],
+  quick=[J(I,"VH_scope",1,1, loop_fuel=300), J(I,"VH_scope",2,1, loop_fuel=300), J(I,"VH_scope",3,0, loop_fuel=300)],
   thorough=[J(I,"VH_scope",1,2, loop_fuel=300), J(I,"VH_scope",2,1, loop_fuel=300), J(I,"VH_scope",3,1, loop_fuel=300)])
 
 # ---------------- C04 / C05 / C06 ----------------
@@ -92,7 +92,7 @@ props["C10"] = dict(title="Numeric literals denote the correctly rounded value i
 props["C11"] = dict(title="Arrays are bounds-checked shared references; len/append/remove are pure sequence ops",
   bounds="histories of 1 (thorough 2) operations on up to three variables (two possibly aliased) over an initial array of 0-3 elements: indexed write/read with an index value of arbitrary kind (unconstrained doubles), length, append of 1 or 2 values, remove at an arbitrary index value; all variables compared with the list model after every step",
   assumptions=["oracle: list model of DESIGN E.7", "a string index that is an integer numeral is coerced by the code and not mentioned by the statement: not asserted", "A-growslice: append follows runtime.growslice of go1.23 (size-class rounding)"]+A_VALUES+A_COMMON[:3],
-  quick=[J(I,"VH_array",1,s) for s in (0,1,3)]+[J(I,"VH_array",2,2)],
+  quick=[J(I,"VH_array",1,s) for s in (0,1,3)]+[J(I,"VH_array",2,2), J(I,"VH_array",2,3)],
   thorough=[J(I,"VH_array",1,s) for s in (0,1,2,3)]+[J(I,"VH_array",2,s) for s in (1,2,3)]+[J(I,"VH_array",3,2, max_instrs=8000000)])
 obj_ids13 = "initialisers-run-in-source-order|every-initialiser-ran-once|same-listing-every-time|diagnostic-text-repeats"
 props["C12"] = dict(title="Objects are shared key->value maps with consistent read, write, delete, listing",
